@@ -240,8 +240,13 @@ class Ctx:
             "wall_s": round(time.time() - self.t0, 2),
             "violations": len(self.violations),
         }
-        (VERIF / "evidence").mkdir(exist_ok=True)
-        (VERIF / "evidence" / f"{self.pid}.json").write_text(json.dumps(ev, indent=1))
+        if str(REPO) == "/repo":
+            (VERIF / "evidence").mkdir(exist_ok=True)
+            (VERIF / "evidence" / f"{self.pid}.json").write_text(json.dumps(ev, indent=1))
+        else:
+            # a run against a scratch tree (seeded change) must not overwrite the evidence of /repo
+            (VERIF / ".scratch").mkdir(exist_ok=True)
+            (VERIF / ".scratch" / f"evidence_{self.pid}_scratchtree.json").write_text(json.dumps(ev, indent=1))
         if self.violations:
             return 1
         if self.undecided:
